@@ -1,9 +1,9 @@
 use core::slice;
-use std::cmp::Ordering;
 use std::fmt::Display;
 use std::fmt::Formatter;
 use std::io::Cursor;
 use std::sync::Arc;
+use std::sync::Mutex;
 use std::sync::OnceLock;
 use std::time::Duration;
 
@@ -102,13 +102,13 @@ impl<const N: usize> AEADCipherCodec<N> {
                 if eih_len > 0 {
                     text = &mut text[eih_len..];
                 }
-                let cipher = unsafe { get_cipher(self.kind, context.key, session.client_session_id) };
+                let cipher = get_cipher(self.kind, context.key, session.client_session_id);
                 cipher.encrypt_in_place_detached(&nonce, &[], text).map_err(|e| anyhow!(e))?;
                 Ok(())
             }
             CipherKind::Aead2022Blake3ChaCha8Poly1305 | CipherKind::Aead2022Blake3ChaCha20Poly1305 => {
                 let (nonce, plaintext) = dst.split_at_mut(nonce_size);
-                let cipher = unsafe { get_cipher(self.kind, context.key, session.client_session_id) };
+                let cipher = get_cipher(self.kind, context.key, session.client_session_id);
                 cipher.encrypt_in_place_detached(nonce, &[], plaintext).map_err(|e| anyhow!(e))?;
                 Ok(())
             }
@@ -161,13 +161,13 @@ impl<const N: usize> AEADCipherCodec<N> {
                     context.key
                 };
                 udp::aes_encrypt_in_place(self.kind, key, header)?;
-                let cipher = unsafe { get_cipher(self.kind, key, session.server_session_id) };
+                let cipher = get_cipher(self.kind, key, session.server_session_id);
                 cipher.encrypt_in_place_detached(&nonce, &[], text).map_err(|e| anyhow!(e))?;
                 Ok(())
             }
             CipherKind::Aead2022Blake3ChaCha8Poly1305 | CipherKind::Aead2022Blake3ChaCha20Poly1305 => {
                 let (nonce, plaintext) = dst.split_at_mut(nonce_length);
-                let cipher = unsafe { get_cipher(self.kind, context.key, session.server_session_id) };
+                let cipher = get_cipher(self.kind, context.key, session.server_session_id);
                 cipher.encrypt_in_place_detached(nonce, &[], plaintext).map_err(|e| anyhow!(e))?;
                 Ok(())
             }
@@ -213,7 +213,7 @@ impl<const N: usize> AEADCipherCodec<N> {
                     let packet_id = cursor.get_u64();
                     let session_id_packet_id = cursor.into_inner();
                     let nonce = &session_id_packet_id[4..16];
-                    let cipher = unsafe { get_cipher(kind, context.key, server_session_id) };
+                    let cipher = get_cipher(kind, context.key, server_session_id);
                     cipher.decrypt_in_place_detached(nonce, &[], text).map_err(|e| anyhow!(e))?;
                     let text = &text[..text.len() - tag_size];
                     Ok((server_session_id, packet_id, text))
@@ -225,7 +225,7 @@ impl<const N: usize> AEADCipherCodec<N> {
                         let slice: &[u64] = unsafe { slice::from_raw_parts(slice.as_ptr() as *const _, 1) };
                         u64::from_be(slice[0])
                     };
-                    let cipher = unsafe { get_cipher(kind, context.key, session_id) };
+                    let cipher = get_cipher(kind, context.key, session_id);
                     cipher.decrypt_in_place_detached(nonce, &[], text).map_err(|e| anyhow!(e))?;
                     let mut cursor = Cursor::new(text);
                     let server_session_id = cursor.get_u64();
@@ -298,7 +298,7 @@ impl<const N: usize> AEADCipherCodec<N> {
                     }
                 }
                 let key = if let Some(ref user) = user { &user.key } else { context.key };
-                let cipher = unsafe { get_cipher(self.kind, key, session_id) };
+                let cipher = get_cipher(self.kind, key, session_id);
                 let mut packet = src.split_off(0);
                 cipher.decrypt_in_place(&nonce, &[], &mut packet).map_err(|e| anyhow!(e))?;
                 (session_id, packet_id, packet)
@@ -310,7 +310,7 @@ impl<const N: usize> AEADCipherCodec<N> {
                     let slice: &[u64] = unsafe { slice::from_raw_parts(slice.as_ptr() as *const _, 1) };
                     u64::from_be(slice[0])
                 };
-                let cipher = unsafe { get_cipher(self.kind, context.key, session_id) };
+                let cipher = get_cipher(self.kind, context.key, session_id);
                 cipher.decrypt_in_place_detached(nonce, &[], text).map_err(|e| anyhow!(e))?;
                 let mut cursor = Cursor::new(text);
                 let server_session_id = cursor.get_u64();
@@ -430,35 +430,30 @@ impl<const N: usize> From<Mode> for Session<N> {
     }
 }
 
-#[derive(PartialEq, Eq, Clone, Copy, Debug)]
+#[derive(PartialEq, Eq, PartialOrd, Ord, Clone, Copy, Debug)]
 struct CipherKey {
-    kind: CipherKind,
-    key: usize,
     session_id: u64,
+    key: [u8; 32],
+    kind: CipherKind,
 }
 
-impl PartialOrd for CipherKey {
-    fn partial_cmp(&self, other: &CipherKey) -> Option<Ordering> {
-        Some(self.cmp(other))
-    }
-}
+/// Ciphers derived per (kind, key, session id), shared by every task of the process
+static CACHE: OnceLock<Mutex<LruCache<CipherKey, Arc<CipherMethod>>>> = OnceLock::new();
 
-impl Ord for CipherKey {
-    fn cmp(&self, other: &CipherKey) -> Ordering {
-        self.session_id.cmp(&other.session_id).then(self.key.cmp(&other.key)).then(self.kind.cmp(&other.kind))
-    }
-}
-
-static CACHE: OnceLock<LruCache<CipherKey, CipherMethod>> = OnceLock::new();
-
-unsafe fn get_cipher(kind: CipherKind, key: &[u8], session_id: u64) -> &CipherMethod {
-    let cache = CACHE.get_or_init(|| LruCache::with_expiry_duration_and_capacity(Duration::from_secs(30), 102400));
-    let cache = unsafe { std::ptr::from_ref(cache).cast_mut().as_mut().expect("empty cipher cache") };
-    let key_ptr = key.as_ptr() as usize;
-    cache.entry(CipherKey { kind, key: key_ptr, session_id }).or_insert_with(|| {
-        debug!("[udp] new cache cipher {}|{}|{}", kind, key_ptr, session_id);
-        udp::new_cipher(kind, key, session_id)
-    })
+fn get_cipher(kind: CipherKind, key: &[u8], session_id: u64) -> Arc<CipherMethod> {
+    let cache = CACHE.get_or_init(|| Mutex::new(LruCache::with_expiry_duration_and_capacity(Duration::from_secs(30), 102400)));
+    let mut cache = cache.lock().unwrap_or_else(|e| e.into_inner());
+    // keyed by the key material itself: an address can be reused by a different key
+    let mut key_bytes = [0; 32];
+    let len = key.len().min(key_bytes.len());
+    key_bytes[..len].copy_from_slice(&key[..len]);
+    cache
+        .entry(CipherKey { session_id, key: key_bytes, kind })
+        .or_insert_with(|| {
+            debug!("[udp] new cache cipher {}|{}", kind, session_id);
+            Arc::new(udp::new_cipher(kind, key, session_id))
+        })
+        .clone()
 }
 
 #[cfg(test)]
